@@ -73,6 +73,12 @@ impl Accept {
             handle_server,
         )?;
 
+        #[cfg(actix_net_verif)]
+        if crate::verif::in_thread() {
+            let handle = verif_accept::adopt(accept, sockets);
+            return Ok((waker_queue, handles_server, handle));
+        }
+
         let accept_handle = thread::Builder::new()
             .name("actix-server acceptor".to_owned())
             .spawn(move || accept.poll_with(&mut sockets))
@@ -127,6 +133,8 @@ impl Accept {
         let mut events = mio::Events::with_capacity(256);
 
         loop {
+            #[cfg(actix_net_verif)]
+            let verif_saved_timeout = crate::verif::step_begin(&mut self.timeout);
             if let Err(err) = self.poll.poll(&mut events, self.timeout) {
                 match err.kind() {
                     io::ErrorKind::Interrupted => {}
@@ -134,12 +142,16 @@ impl Accept {
                 }
             }
 
+            #[cfg(actix_net_verif)]
+            crate::verif::step_after_poll(&mut self.timeout, verif_saved_timeout, &events);
             for event in events.iter() {
                 let token = event.token();
                 match token {
                     WAKER_TOKEN => {
                         let exit = self.handle_waker(sockets);
                         if exit {
+                            #[cfg(actix_net_verif)]
+                            crate::verif::note_accept_exit();
                             info!("accept thread stopped");
                             return;
                         }
@@ -153,6 +165,10 @@ impl Accept {
 
             // check for timeout and re-register sockets
             self.process_timeout(sockets);
+            #[cfg(actix_net_verif)]
+            if crate::verif::single_step() {
+                return;
+            }
         }
     }
 
@@ -335,8 +351,12 @@ impl Accept {
     // Send connection to worker and handle error.
     fn send_connection(&mut self, conn: Conn) -> Result<(), Conn> {
         let next = self.next();
+        #[cfg(actix_net_verif)]
+        crate::verif::note_dispatch(next.idx(), &conn);
         match next.send(conn) {
             Ok(_) => {
+                #[cfg(actix_net_verif)]
+                crate::verif::point(crate::verif::Point::AfterSend(next.idx()));
                 // Increment counter of WorkerHandle.
                 // Set worker to unavailable with it hit max (Return false).
                 if !next.inc_counter() {
@@ -347,6 +367,8 @@ impl Accept {
                 Ok(())
             }
             Err(conn) => {
+                #[cfg(actix_net_verif)]
+                crate::verif::note_dispatch_failed(&conn);
                 // Worker thread is error and could be gone.
                 // Remove worker handle and notify `ServerBuilder`.
                 self.remove_next();
@@ -366,7 +388,11 @@ impl Accept {
     }
 
     fn accept_one(&mut self, mut conn: Conn) {
+        #[cfg(actix_net_verif)]
+        let mut verif_iterations = 0usize;
         loop {
+            #[cfg(actix_net_verif)]
+            crate::verif::accept_one_iteration(&mut verif_iterations, self.handles.len());
             let next = self.next();
             let idx = next.idx();
 
@@ -459,4 +485,69 @@ fn connection_error(e: &io::Error) -> bool {
     e.kind() == io::ErrorKind::ConnectionRefused
         || e.kind() == io::ErrorKind::ConnectionAborted
         || e.kind() == io::ErrorKind::ConnectionReset
+}
+
+#[cfg(actix_net_verif)]
+pub(crate) mod verif_accept {
+    //! Verification hooks: the real `Accept` is kept on the calling thread instead of being moved
+    //! into its own thread, and is stepped one loop iteration at a time.
+    use std::os::fd::AsRawFd;
+
+    use super::*;
+    use crate::verif::AcceptView;
+
+    pub(crate) struct AcceptBox {
+        accept: Accept,
+        sockets: Box<[ServerSocketInfo]>,
+    }
+
+    pub(super) fn adopt(
+        accept: Accept,
+        sockets: Box<[ServerSocketInfo]>,
+    ) -> thread::JoinHandle<()> {
+        crate::verif::store_accept(AcceptBox { accept, sockets });
+        // `ServerInner` joins this handle on stop; the accept loop itself is run to its exit by
+        // `verif::before_accept_join` on the calling thread.
+        thread::spawn(|| {})
+    }
+
+    impl AcceptBox {
+        /// One iteration of the real accept loop (`verif::single_step()` makes `poll_with` return
+        /// after `process_timeout`).
+        pub(crate) fn step(&mut self) {
+            self.accept.poll_with(&mut self.sockets)
+        }
+
+        pub(crate) fn view(&self) -> AcceptView {
+            let now = Instant::now();
+            AcceptView {
+                next: self.accept.next,
+                handles: self.accept.handles.iter().map(|h| h.idx()).collect(),
+                counters: self
+                    .accept
+                    .handles
+                    .iter()
+                    .map(|h| (h.idx(), crate::worker::verif_worker::counter_raw(h)))
+                    .collect(),
+                avail_words: crate::verif::availability_words(&self.accept.avail),
+                paused: self.accept.paused,
+                timeout: self.accept.timeout,
+                socket_deadlines: self
+                    .sockets
+                    .iter()
+                    .map(|s| s.timeout.map(|t| t.saturating_duration_since(now)))
+                    .collect(),
+                epoll_fd: self.accept.poll.as_raw_fd(),
+                listener_fds: self
+                    .sockets
+                    .iter()
+                    .map(|s| match &s.lst {
+                        MioListener::Tcp(l) => l.as_raw_fd(),
+                        MioListener::Uds(l) => l.as_raw_fd(),
+                    })
+                    .collect(),
+                queue: crate::waker_queue::verif_queue::snapshot(&self.accept.waker_queue),
+            }
+        }
+    }
 }
